@@ -479,6 +479,7 @@ def run_lle(case, model_in, outs, failures, tags):
     eff_tolT = DEF_TOLT if tolT is None else tolT
     eff_tolZ = DEF_TOLZ if tolZ is None else tolZ
     prev = None            # (T, z, idx) of the previous effective call
+    probed, probe_after = False, None
     frozen_chain = True    # pseudo equilibrium: every K this stream remembers is an initial guess that never moved
     ncalls = 0
     two_phase_after_history = False
@@ -620,6 +621,8 @@ def run_lle(case, model_in, outs, failures, tags):
             # update=False: nothing is written (the liquids stay merged); the call returns (chemicals, K, phi)
             outs.append(f'path={path} K={fl(ret[1])} phi={fbits(ret[2])}')
             tags.append('update=False')
+            probe_after = prev          # (T, z, idx) of the call before this probe
+            probed = True
             if [c.ID for c in ret[0]] != ids:
                 failures.append({'signature': 'update-false:wrong-chemicals-returned', 'op_index': op_index,
                                  'what': f'update=False returned chemicals {[c.ID for c in ret[0]]}, the liquids hold {ids}'})
@@ -643,6 +646,10 @@ def run_lle(case, model_in, outs, failures, tags):
             elif abs(T - pT) < eff_tolT: rel = 'other-composition'
             else: rel = 'other-T-and-composition'
         tags.append('history:' + rel)
+        if probed and probe_after is not None and probe_after[2] == list(idx) and probe_after[0] == T \
+                and np.all(np.abs(probe_after[1] - z) <= 1e-15) and rel != 'within-tolerance' and uc:
+            tags.append('history:back-at-the-remembered-point-after-an-update=False-probe-elsewhere')
+        probed = False
         if rel == 'other-chemicals' and len(prev[2]) == len(idx): tags.append('history:other-chemicals:same-count')
         if prev is not None and rel in ('lower-T', 'higher-T') and abs(T - prev[0]) <= 1000.5 * eff_tolT:
             tags.append('history:just-outside-the-temperature-tolerance(1.1..1000 x)')
@@ -1047,6 +1054,7 @@ def gen_lle(rng, method_i):
     h = rng.choice([0, 1, 1, 2, 2, 3, 4])
     for c in range(h + 1):
         last = c == h
+        probe = False
         if c > 0:
             tT = DEF_TOLT if tolT == '-' else float(tolT)
             def near_T():
@@ -1056,6 +1064,23 @@ def gen_lle(rng, method_i):
                 i = rng.choice(sorted(flows)); tot = sum(flows.values()); zi = flows[i] / tot
                 flows[i] = flows[i] * (1 + rng.choice([-1, 1]) * f * tZ / (zi * (1 - zi)))
             sc = rng.random()
+            probe = rng.random() < 0.14
+            if probe:
+                # an update=False probe in between (it returns (chemicals, K, phi) and writes no flows, but it is a call
+                # like any other for what the solver remembers), at another temperature or another composition; then back
+                # to EXACTLY the temperature and composition of the call before it
+                sc = 2.0
+                if rng.random() < 0.65:
+                    Tp = round(min(355., max(285., T + rng.choice([-1, 1]) * rng.uniform(15, 60))), 2)
+                    if abs(Tp - T) < 10: Tp = round(T + (25 if T < 320 else -25), 2)
+                    ops.append(f'lle call T={Tp!r} top={top} uc={rng.choice([0, 1, 1])} k=1 upd=0')
+                else:
+                    back = dict(flows)
+                    i = rng.choice(sorted(flows)); flows[i] = round(flows[i] * rng.choice([0.3, 0.5, 2, 3]), 4)
+                    ops.append(f'lle set flows={ftok(flows)}')
+                    ops.append(f'lle call T={T!r} top={top} uc={rng.choice([0, 1, 1])} k=1 upd=0')
+                    flows = back
+                    ops.append(f'lle set flows={ftok(flows)}')
             if sc < 0.18:                                   # a legitimate cache hit: T and z within the tolerances
                 T = near_T()
                 r = rng.random()
@@ -1105,21 +1130,22 @@ def gen_lle(rng, method_i):
                 ops.append(f'lle set flows={ftok(flows)}')
             elif sc < 0.93:
                 ops.append('lle resetcache')
-            else:                                           # anything
+            elif sc < 1.5:                                  # anything
                 T = round(rng.uniform(285, 355), 2)
                 i = rng.choice(sorted(flows)); flows[i] = round(flows[i] * rng.choice([0.3, 0.5, 2, 3]), 4)
                 ops.append(f'lle set flows={ftok(flows)}')
             if rng.random() < 0.25: top = rng.choice(tops)
-            if rng.random() < 0.22:
+            if not probe and rng.random() < 0.22:
                 # the set of phases of the stream changes between two calls: explicitly, or because another kind of
                 # solver is asked for (ms.vle adds 'g', ms.sle adds 's'); 'Ll' re-assigns the minimal set (no change, or
                 # a shrink after an earlier enlargement)
                 ops.append(rng.choice(['lle phases set=gLl', 'lle phases set=Lls', 'lle phases set=Ll', 'lle phases set=gLls',
                                        'lle touch kind=vle', 'lle touch kind=sle', 'lle touch kind=lle']))
-        uc = 1 if rng.random() < 0.88 else 0
+        back_from_probe = c > 0 and probe
+        uc = 1 if (back_from_probe or rng.random() < 0.88) else 0
         k = rng.choice([1e-3, 1e-2, 0.1, 10, 100, 1e3] + ([1e5, 1e6] if tiny else [1e-5, 1e-6])) \
             if (last or rng.random() < 0.3) else 1
-        upd = 0 if (not last and rng.random() < 0.12) else 1
+        upd = 0 if (not last and not back_from_probe and rng.random() < 0.12) else 1
         ops.append(f'lle call T={T!r} top={top} uc={uc} k={k!r}' + ('' if upd else ' upd=0'))
     return Case(ops, {'kind': 'lle'})
 
@@ -1248,6 +1274,13 @@ def corpus():
         Case(['sle new thermo=0 liq=1:12.0,5:9.0 sol=-', 'sle call solute=Naphthalene T=300.0 given=-', 'sle set liq=1:3.0',
               'sle call solute=Naphthalene T=310.0 given=-', 'sle set liq=1:24.0', 'sle call solute=Naphthalene T=295.0 given=-'],
              {'kind': 'sle'}),
+        # an update=False probe at another temperature between two calls at one temperature: what is remembered afterwards
+        # is the probe (its K AND its T, z), so the third call may not reuse anything
+        Case(['lle new method=2 tolT=- tolZ=- flows=0:9.0,4:7.0,5:1.5', 'lle call T=298.0 top=EthylAcetate uc=1 k=1',
+              'lle call T=345.0 top=EthylAcetate uc=1 k=1 upd=0', 'lle call T=298.0 top=EthylAcetate uc=1 k=1'], {'kind': 'lle'}),
+        Case(['lle new method=1 tolT=- tolZ=- flows=0:14.0,7:6.0,8:2.0', 'lle call T=310.0 top=Toluene uc=1 k=1',
+              'lle set flows=0:14.0,7:6.0,8:8.0', 'lle call T=310.0 top=Toluene uc=1 k=1 upd=0',
+              'lle set flows=0:14.0,7:6.0,8:2.0', 'lle call T=310.0 top=Toluene uc=1 k=1'], {'kind': 'lle'}),
         # SLE: docstring cases
         Case(['sle new thermo=0 liq=2:10.0,4:30.0 sol=-', 'sle call solute=Tetradecanol T=300.0 given=-',
               'sle call solute=Tetradecanol T=300.0 given=0.5'], {'kind': 'sle'}),
